@@ -176,3 +176,31 @@ func SparseAliases() ([]Alias, error) {
 	}
 	return out, nil
 }
+
+// LimbGrid returns the 256-bit values whose four 64-bit limbs are each drawn from {0, m_i - 1, m_i, m_i + 1, 2^64 - 1}
+// (m_i the corresponding limb of m): 625 values on both sides of m. A range test done limb by limb ("first differing
+// limb decides") that forgets a condition is wrong for some of them and for no "nice" value such as m, m + 1, 2^256 - 1.
+func LimbGrid(m *big.Int) []*big.Int {
+	var limbs [4]uint64
+	t := new(big.Int).Set(m)
+	mask := new(big.Int).SetUint64(^uint64(0))
+	for i := 0; i < 4; i++ {
+		limbs[i] = new(big.Int).And(t, mask).Uint64()
+		t.Rsh(t, 64)
+	}
+	var out []*big.Int
+	var rec func(i int, acc *big.Int)
+	rec = func(i int, acc *big.Int) {
+		if i < 0 {
+			out = append(out, new(big.Int).Set(acc))
+			return
+		}
+		for _, v := range []uint64{0, limbs[i] - 1, limbs[i], limbs[i] + 1, ^uint64(0)} {
+			a := new(big.Int).Lsh(acc, 64)
+			a.Or(a, new(big.Int).SetUint64(v))
+			rec(i-1, a)
+		}
+	}
+	rec(3, new(big.Int))
+	return out
+}
